@@ -92,7 +92,8 @@ def _run_case(ctx, case):
                  unrelated=rng.choice([0, 0, 0.3, 0.6]), atom_lists=rng.choice([0, 0, 0, 1, 3]), eol=rng.choice(["\n", "\n", "\r\n"]),
                  explicit_zero=rng.choice([0, 0, 0.3]), shuffle_entries=rng.random() < 0.5, interleave=rng.random() < 0.5,
                  after_end=rng.choice(["", "", "$$$$"]), final_eol=rng.random() < 0.5, stereo_fields=rng.random() < 0.3,
-                 header=rng.choice([None, ["", "", ""], ["M  CHG  1   1   1", "M  ISO", "M  END"]]),
+                 header=rng.choice([None, ["", "", ""], ["M  CHG  1   1   1", "M  ISO", "M  END"], ["glycine, V2000", "  prog", "converted from V3000"],
+                                    ["x", "y", "  0  0  0     0  0            999 V3000"]]),
                  two_line_records=rng.choice([0, 0, 0.3]))
     work = mol
     if enc in ("codes", "lines", "stale", "agree"):
